@@ -242,6 +242,17 @@ def regions(body, t):
     return ry - rn, rn - ry
 
 
+# The candidate record of `best`: the pair (id, objective) as a tuple (HEAD) or as a struct with named fields.  best_rules() finds
+# the aggregate the candidates are built with and names its fields by *role* -- the field filled from the loop's id is '0', the
+# field filled from objectives.get(id) is '1' -- so that every rule can keep speaking about `.0` / `.1`.
+RECORD_ALIAS = {}
+
+
+def pos_fields(fields):
+    """positional names of the tuple / candidate-record fields in a list of (owner, field) projections"""
+    return [RECORD_ALIAS.get((a, f), f) for a, f in fields if a == 'tuple' or (a, f) in RECORD_ALIAS]
+
+
 def item_fields(body, lo, op, depth=14):
     """tuple components selected from the item of loop `lo` by an operand: [] = the item itself,
     ['1'] = item.1, ... ; None if the operand is not (a projection / reference / copy of) the item.
@@ -253,7 +264,7 @@ def item_fields(body, lo, op, depth=14):
         break
     if e[0] == 'call' and len(e) > 4 and e[4] == lo[0].bb: return []
     if e[0] == 'proj' and e[1][0] == 'call' and len(e[1]) > 4 and e[1][4] == lo[0].bb:
-        return [f for a, f in e[2] if a == 'tuple']
+        return pos_fields(e[2])
     if e[0] == 'place' and e[1] > body.argc and e[2] and T.WRAPPER_OWNER.search(e[2][0][0]) and depth > 4:
         # `if flag { Some(id) } else { None }` unwrapped: the payload of an Option assigned in several branches is what the Some branches put in
         alts = []
@@ -264,7 +275,7 @@ def item_fields(body, lo, op, depth=14):
             if rv['k'] == 'agg' and rv['adt'].endswith('Option::Some') and len(rv['ops']) == 1:
                 f = item_fields(body, lo, rv['ops'][0], depth - 4)
                 if f is None: return None
-                alts.append(f + [x for a, x in e[2][1:] if a == 'tuple'])
+                alts.append(f + pos_fields(e[2][1:]))
             else: return None
         if alts and all(a == alts[0] for a in alts): return alts[0]
     return None
@@ -547,7 +558,7 @@ def ordering_expr(cb, e, flips=0, pa=2, pb=3, want=('1',)):
     def side(x):
         x = T.strip_wrappers(x)
         pl = [y for y in T.expr_walk(x) if y[0] == 'place' and y[1] in (pa, pb)]
-        return (pl[0][1] if pl else None, [f for a, f in T.expr_fields(x) if a == 'tuple'][-1:])
+        return (pl[0][1] if pl else None, pos_fields(T.expr_fields(x))[-1:])
     (i0, f0), (i1, f1) = side(e[3][0]), side(e[3][1])
     if not (f0 == list(want) and f1 == list(want) and {i0, i1} == {pa, pb}): return 'not-the-objective-values'
     nat = (i0, i1) == (pa, pb)
@@ -658,7 +669,7 @@ def reducer_under(ctx, b, cb, S, parent_env):
         pl = [y for y in T.expr_walk(e) if y[0] == 'place' and y[1] in (2, 3)]
         opaque = [y for y in T.expr_calls(e) if not T.TRANSPARENT.search(T.strip_generics_tail(y[2]))]
         if len({y[1] for y in pl}) != 1 or opaque: return (None, ())
-        return ('inc' if pl[0][1] == 2 else 'cand', tuple(f for a, f in T.expr_fields(e) if a == 'tuple'))
+        return ('inc' if pl[0][1] == 2 else 'cand', tuple(pos_fields(T.expr_fields(e))))
     tests = []       # (bb of the bool-valued test, sides, relation that holds between them when the test is true)
     for c in cb.calls:
         if c.bb in r and c.item in CMP_ITEMS and len(c.args) == 2:
@@ -793,7 +804,7 @@ def selection_by_loop(ctx, R, b, lo, inc, somes):
         # (best as Some).0.1, best.unwrap().1, best.as_ref().unwrap().1, ...: a projection of the incumbent through transparent calls
         roots = [y for y in T.expr_walk(e) if y[0] in ('place', 'local') and y[1] == inc]
         opaque = [y for y in T.expr_calls(e) if not T.TRANSPARENT.search(T.strip_generics_tail(y[2]))]
-        if roots and not opaque: return ('inc', [f for a, f in T.expr_fields(e) if a == 'tuple'])
+        if roots and not opaque: return ('inc', pos_fields(T.expr_fields(e)))
         return (None, [])
     sites = []; a_call = {}; a_stmt = {}
     def verdict(x, y, rel):
@@ -841,6 +852,20 @@ def best_rules(ctx):
     if b is None: return
     rs = ctx.S.backslice(b, [0])
     loops = T.for_loops(b)
+    # ---- the candidate record: a struct whose one field is filled from the id and another from objectives.get(id) stands for the pair
+    RECORD_ALIAS.clear()
+    getcalls = [c for c in b.calls if c.item == 'get' and c.path.endswith('SampledValues>::get')]
+    nexts = [lo[0] for lo in loops]
+    for bi, st in b.stmts():
+        rv = st['rv']
+        if rv['k'] != 'agg' or rv['adt'] in ('tuple', 'array') or rv['adt'].startswith(('closure:', 'std::', 'core::')) or len(rv.get('fields', [])) != len(rv['ops']) or len(rv['ops']) < 2: continue
+        roles = {}
+        for f, o in zip(rv['fields'], rv['ops']):
+            sl = ctx.S.slice_operand(b, o)
+            if any(g in sl.call_objs for g in getcalls): roles[f] = '1'
+            elif any(n in sl.call_objs for n in nexts) and 2 in sl.params: roles[f] = '0'
+        if sorted(roles.values()) == ['0', '1']:
+            for f, r_ in roles.items(): RECORD_ALIAS[(rv['adt'], f)] = r_
     # ---- the selection: a min_by / max_by call, or a loop with an incumbent
     sel = [c for c in b.calls if c.item in ('min_by', 'max_by', 'reduce') and 'Iterator' in (c.trait or '') and c in rs.call_objs]
     incs = [(lo, l, nones, somes) for lo in loops for l, nones, somes in incumbents(b, lo) if l in rs.locals]
@@ -888,15 +913,21 @@ def best_rules(ctx):
             for cn in [closure_of(b, c.args[1])]:
                 cb = ctx.F.bodies.get(cn)
                 if cb is None: continue
-                for bi, st in cb.stmts():
-                    if st['dst']['l'] == 0 and not st['dst']['p'] and st['rv']['k'] == 'use':
-                        fs = [f for a, f in T.expr_fields(T.expr(cb, st['rv']['ops'][0])) if a == 'tuple']
-                        (ids if fs[-1:] == ['0'] else others).append(c.bb)
+                for k2, bi, d in cb.defs_of(0):
+                    # what the closure returns: the id component itself; anything computed from the record (a call, arithmetic) is not the id
+                    if k2 == 'call':
+                        cc = [x for x in cb.calls if x.bb == bi][0]
+                        e = ('call', cc.item, cc.name, [T.expr(cb, a) for a in cc.args], bi)
+                    elif not d['dst']['p']: e = T._rv_expr(cb, d['rv'])
+                    else: continue
+                    fs = pos_fields(T.expr_fields(e))
+                    computed = [y for y in T.expr_calls(e) if not T.TRANSPARENT.search(T.strip_generics_tail(y[2]))] or [y for y in T.expr_walk(e) if y[0] in ('bin', 'un', 'cast')]
+                    (ids if fs[-1:] == ['0'] and not computed else others).append(c.bb)
     for bi, st in b.stmts():
         # let Some((id, _)) = best else ..  /  match best { Some((id, _)) => id, .. }
         rv = st['rv']
         if rv['k'] == 'use' and not st['dst']['p'] and st['dst']['l'] in rs.locals and rv['ops'][0]['k'] in ('copy', 'move') and rv['ops'][0]['pl']['l'] in results:
-            fs = [f for a, f in fields_of_place(rv['ops'][0]['pl']) if a == 'tuple']
+            fs = pos_fields(fields_of_place(rv['ops'][0]['pl']))
             if fs: (ids if fs[-1:] == ['0'] else others).append(bi)
     sel_bbs_ = {sc.bb for sc in sel}
     for k, bi, d in b.defs_of(0):
@@ -907,7 +938,7 @@ def best_rules(ctx):
                 if e[0] == 'call' and T.TRANSPARENT.search(T.strip_generics_tail(e[2])) and e[3]: e = e[3][0]; continue
                 break
             involved = any(len(x) > 4 and x[4] in sel_bbs_ for x in T.expr_calls(e)) or any(y[0] in ('place', 'local') and y[1] in results for y in T.expr_walk(e))
-            tf = [f for a, f in T.own_fields(e) if a == 'tuple']
+            tf = pos_fields(T.own_fields(e))
             computed = any(y[0] in ('bin', 'un', 'cast') for y in T.expr_walk(e))       # Ok(f(id)) is not the id
             if involved and computed: others.append(bi)
             elif involved and tf: (ids if tf[-1:] == ['0'] else others).append(bi)
@@ -950,6 +981,11 @@ def best_rules(ctx):
 
 # ------------------------------------------------------------------------------------- feasible id sets
 def keeps_true_flags(ctx, rule, b):
+    found, why = keeps_true_flags_problems(ctx, b)
+    ctx.check(found == [], rule, 'T-BRANCHFX', b.name, 'does not keep exactly the ids whose flag is true: %s' % ('; '.join(found) if found else why), b.site())
+
+
+def keeps_true_flags_problems(ctx, b):
     """the returned set gets exactly the keys of the map whose flag is true:
     in the loop over the map, with every read of `item.1` assumed false no insertion is reachable, with
     every read assumed true every iteration inserts, and what is inserted is `item.0`"""
@@ -977,7 +1013,7 @@ def keeps_true_flags(ctx, rule, b):
         rs = ctx.S.backslice(b, [0])
         if not all(c in rs.call_objs for c in ins): probs.append('the set inserted into is not the result')
         found = probs
-    ctx.check(found == [], rule, 'T-BRANCHFX', b.name, 'does not keep exactly the ids whose flag is true: %s' % ('; '.join(found) if found else why), b.site())
+    return found, why
 
 
 def pair_rules(ctx):
@@ -1001,6 +1037,12 @@ def pair_rules(ctx):
         other = {'feasible_ids': 'feasible_unrelaxed_ids', 'feasible_unrelaxed_ids': 'feasible_ids', 'best_feasible_id': 'best_feasible_unrelaxed_id', 'best_feasible_unrelaxed_id': 'best_feasible_id',
                  'feasible_relaxed': 'feasible_unrelaxed', 'feasible_unrelaxed': 'feasible_relaxed'}[inner]
         ok = inner in names and other not in names and (outer is None or outer in names)
+        if not ok and outer == 'best' and outer in names and inner not in names and other not in names:
+            # the id set is not taken from the public `<inner>()` but built here (a private helper, inlined): it must be built the way
+            # `<inner>()` is -- from the same accessor, keeping exactly the ids whose flag is true -- and be what `best` gets
+            acc = chain[inner][1]; other_acc = chain[other][1]
+            if acc in names and other_acc not in names:
+                ok = keeps_true_flags_problems(ctx, b)[0] == []
         ctx.check(ok, R + '/%s/uses-%s' % (fn, inner), 'T-CARRY', b.name, '%s must be built from %s%s (calls: %s)' % (fn, inner, ' through ' + outer if outer else '', sorted(set(names))), b.site())
         if outer == 'get':
             errflow_ps(ctx, R + '/%s/error' % fn, b, [c for c in b.calls if c.item == inner], 'no feasible sample')
